@@ -547,6 +547,8 @@ def family_repair(rng, dbdir, opts, nops):
         h.write_some(rng.range(1, 3), small=True)      # left in the log only
     h.emit('close')
     h.emit('repair %d' % rng.choice([0, 0, 1, 2, 3]))
+    if rng.chance(1, 4):
+        h.emit('repair 3')          # repairing twice in a row (nothing removed in between) must be harmless
     h.snaps = {}
     h.iters = {}
     h.open()
